@@ -92,33 +92,110 @@ theorem requestShutdown_drops (s : Sim) (mi : Nat) (path who : String) (d : Opti
     · simp only [hi, if_true]; exact Drops.of_eq rfl rfl
     · simp only [hi, if_false]; exact Drops.refl s
 
+@[simp] theorem updChan_stream (s : Sim) (li : Nat) (f : ChanRt → ChanRt) : (s.updChan li f).stream = s.stream := rfl
+@[simp] theorem updChan_seeds (s : Sim) (li : Nat) (f : ChanRt → ChanRt) : (s.updChan li f).seeds = s.seeds := rfl
+@[simp] theorem push_seeds (s : Sim) (ev : KEvent) (t : Nat) : (s.push ev t).seeds = s.seeds := rfl
+
+@[simp] theorem emit_stream (s : Sim) (d : Bool) (ev : KEvent) (t : Nat) : (s.emit d ev t).stream = s.stream := by
+  cases d <;> simp [Sim.emit]
+
+@[simp] theorem emit_seeds (s : Sim) (d : Bool) (ev : KEvent) (t : Nat) : (s.emit d ev t).seeds = s.seeds := by
+  cases d <;> simp [Sim.emit]
+
+theorem startTx_drops (s : Sim) (li : Nat) (src dst : String) (lat jit tx : Nat) (m : Msg) (di : Nat) (d : Bool) :
+    Drops s (startTx s li src dst lat jit tx m di d) := by
+  unfold startTx
+  simp only []
+  have h1 : Drops s (if jit = 0 then s.log "-" "xmit" src dst [m.serial] else (s.log "-" "xmit" src dst [m.serial]).pop.2) := by
+    by_cases hj : jit = 0
+    · simp only [hj, if_true]; exact Drops.of_eq rfl rfl
+    · simp only [hj, if_false]
+      exact Drops.after_eq (Drops.pop _) rfl rfl
+  generalize (if jit = 0 then s.log "-" "xmit" src dst [m.serial] else (s.log "-" "xmit" src dst [m.serial]).pop.2) = s2 at h1
+  by_cases ht : tx = 0
+  · simp only [ht, if_true]; exact h1.trans (Drops.of_eq (by simp) (by simp))
+  · simp only [ht, if_false]; exact h1.trans (Drops.of_eq (by simp) (by simp))
+
+theorem transmit_drops (net : Net) (s : Sim) (li : Nat) (m : Msg) (di : Nat) (d : Bool) :
+    Drops s (transmit net s li m di d) := by
+  unfold transmit
+  cases net.links[li]? with
+  | none => exact Drops.refl s
+  | some l =>
+    cases s.chans[li]? with
+    | none => exact Drops.refl s
+    | some c =>
+      simp only []
+      cases l.chan with
+      | none => exact Drops.of_eq (by simp) (by simp)
+      | some p =>
+        obtain ⟨lat, jit, tx⟩ := p
+        simp only []
+        by_cases hb : c.busy = true
+        · simp only [hb, if_true]; exact Drops.of_eq rfl rfl
+        · simp only [hb]; exact startTx_drops ..
+
+theorem sendVia_drops (net : Net) (s : Sim) (mi li : Nat) (m : Msg) (d : Bool) :
+    Drops s (sendVia net s mi li m d) := by
+  unfold sendVia
+  cases s.mods[mi]? with
+  | none => exact Drops.refl s
+  | some sender =>
+    cases net.links[li]? with
+    | none => exact Drops.refl s
+    | some l =>
+      simp only []
+      by_cases ha : sender.active = true
+      · simp only [ha, if_true]
+        cases modIndex s.mods l.dst with
+        | none => exact Drops.refl s
+        | some di => exact transmit_drops ..
+      · simp only [ha]; exact Drops.refl s
+
+theorem drain_drops (net : Net) (li : Nat) (fuel : Nat) : ∀ s : Sim, Drops s (drain net li fuel s) := by
+  induction fuel with
+  | zero => intro s; exact Drops.refl s
+  | succ n ih =>
+    intro s
+    simp only [drain]
+    cases s.chans[li]? with
+    | none => exact Drops.refl s
+    | some c =>
+      simp only []
+      by_cases hb : c.busy = true
+      · simp only [hb, if_true]; exact Drops.refl s
+      · simp only [hb]
+        cases c.queue with
+        | nil => exact Drops.refl s
+        | cons x r =>
+          obtain ⟨m, di⟩ := x
+          simp only []
+          have hA : Drops s (s.updChan li (fun c => { c with queue := r })) := Drops.of_eq rfl rfl
+          exact (hA.trans (transmit_drops ..)).trans (ih _)
+
+theorem unbusy_drops (net : Net) (s : Sim) (li : Nat) : Drops s (unbusy net s li) := by
+  unfold unbusy
+  have hA : Drops s (s.updChan li (fun c => { c with busy := false })) := Drops.of_eq rfl rfl
+  exact hA.trans (drain_drops ..)
+
 theorem stepSync_drops (net : Net) (s : Sim) (mi : Nat) (path : String) (ttl : Nat) (who : String) (st : Step) :
     Drops s (stepSync net s mi path ttl who st) := by
   cases st with
   | draw => exact (Drops.pop s).trans (Drops.of_eq rfl rfl)
   | draw32 => exact (Drops.pop s).trans (Drops.of_eq rfl rfl)
-  | send dst kind =>
+  | send dst kind d =>
     simp only [stepSync]
     by_cases h0 : ttl = 0
     · simp only [h0, if_true]; exact Drops.refl s
     · simp only [h0, if_false]
-      cases findLink net.links path dst with
+      cases linkIndex net.links path dst with
       | none => exact Drops.refl s
-      | some l =>
-        cases modIndex s.mods dst with
-        | none => exact Drops.refl s
-        | some di =>
-          simp only []
-          cases l.chan with
-          | none => exact Drops.of_eq rfl rfl
-          | some lj =>
-            obtain ⟨lat, jit⟩ := lj
-            simp only []
-            by_cases hj : jit = 0
-            · simp only [hj, if_true]; exact Drops.of_eq rfl rfl
-            · simp only [hj, if_false]
-              have hA : Drops s (s.bump.log path "send" who dst [kind, ttl - 1, s.serial + 1]) := Drops.of_eq rfl rfl
-              exact (hA.trans (Drops.pop _)).trans (Drops.of_eq rfl rfl)
+      | some li =>
+        simp only []
+        have hA : Drops s (s.bump.log path "send" who dst [kind, ttl - 1, s.serial + 1, d]) := Drops.of_eq rfl rfl
+        by_cases hd : d = 0
+        · subst hd; simp only [if_true]; exact hA.trans (sendVia_drops ..)
+        · simp only [hd, if_false]; exact Drops.of_eq rfl rfl
   | sched d kind =>
     simp only [stepSync]
     by_cases h0 : ttl = 0
@@ -129,6 +206,8 @@ theorem stepSync_drops (net : Net) (s : Sim) (mi : Nat) (path : String) (ttl : N
   | sel ds => exact Drops.refl s
   | shut => exact requestShutdown_drops ..
   | restart d => exact requestShutdown_drops ..
+  | sig n => exact Drops.of_eq rfl rfl
+  | wait n => exact Drops.refl s
 
 theorem runHandler_drops (net : Net) (mi : Nat) (path : String) (ttl : Nat) (steps : List Step) :
     ∀ s : Sim, Drops s (runHandler net s mi path ttl steps) := by
@@ -150,6 +229,8 @@ theorem runHandler_drops (net : Net) (mi : Nat) (path : String) (ttl : Nat) (ste
     | sel ds => exact (stepSync_drops net s mi path ttl "H" _).trans (ih _)
     | shut => exact (stepSync_drops net s mi path ttl "H" _).trans (ih _)
     | restart d => exact (stepSync_drops net s mi path ttl "H" _).trans (ih _)
+    | sig n => exact (stepSync_drops net s mi path ttl "H" _).trans (ih _)
+    | wait n => exact (stepSync_drops net s mi path ttl "H" _).trans (ih _)
 
 theorem selPoll_drops (s : Sim) (mi : Nat) (path tag : String) (ti : Nat) (ss : List Sl) :
     Drops s (selPoll s mi path tag ti ss).1 := by
@@ -191,6 +272,16 @@ theorem runTask_drops (net : Net) (a : Ambient) (mi : Nat) (path tag : String) (
     | sched d k => simp only [runTask]; exact (stepSync_drops net s mi path ttl tag _).trans (ih _)
     | shut => simp only [runTask]; exact (stepSync_drops net s mi path ttl tag _).trans (ih _)
     | restart d => simp only [runTask]; exact (stepSync_drops net s mi path ttl tag _).trans (ih _)
+    | sig n => simp only [runTask]; exact (stepSync_drops net s mi path ttl tag _).trans (ih _)
+    | wait name =>
+      simp only [runTask]
+      cases s.mods[mi]? with
+      | none => exact Drops.refl s
+      | some m =>
+        simp only []
+        by_cases hp : semPermits m name = 0
+        · simp only [hp, if_true]; exact Drops.of_eq rfl rfl
+        · simp only [hp, if_false]; exact Drops.after_eq (ih _) rfl rfl
 
 theorem pollTask_drops (net : Net) (a : Ambient) (s : Sim) (mi : Nat) (path : String) (ti : Nat) :
     Drops s (pollTask net a s mi path ti) := by
@@ -214,6 +305,11 @@ theorem pollTask_drops (net : Net) (a : Ambient) (s : Sim) (mi : Nat) (path : St
       cases w with
       | some w => exact hp.trans (runTask_drops ..)
       | none => exact hp.trans (Drops.of_eq rfl rfl)
+    | waiting n g =>
+      simp only []
+      cases g
+      · exact Drops.refl s
+      · simp only [if_true]; exact Drops.after_eq (runTask_drops ..) rfl rfl
 
 theorem schedLoop_drops (net : Net) (a : Ambient) (mi : Nat) (path : String) (fuel : Nat) :
     ∀ s : Sim, Drops s (schedLoop net a mi path fuel s) := by
@@ -338,6 +434,8 @@ theorem step_drops (net : Net) (a : Ambient) (s s' : Sim) (h : step net a s = so
       | wakeup mi => exact Drops.after_eq (moduleEvent_drops ..) rfl rfl
       | restart mi => exact Drops.after_eq (moduleEvent_drops ..) rfl rfl
       | exitConn mi m => exact Drops.of_eq (by simp [dispatch]) (by simp [dispatch])
+      | leave mi li m => exact Drops.after_eq (sendVia_drops ..) rfl rfl
+      | unbusy li => exact Drops.after_eq (unbusy_drops ..) rfl rfl
 
 theorem loop_drops (net : Net) (a : Ambient) (fuel : Nat) :
     ∀ (s : Sim) (n : Nat), Drops s (loop net a fuel s n).1 := by
@@ -365,18 +463,22 @@ theorem foldEvents_drops (net : Net) (a : Ambient) (cb : Callback) (flush : Bool
   | nil => intro s; exact Drops.refl s
   | cons mi r ih => intro s; exact (moduleEvent_drops ..).trans (ih _)
 
-theorem finalSim_Drops (net : Net) (a : Ambient) (stream : List Nat) (fuel : Nat) :
-    Drops (init net a stream) (finalSim net a stream fuel).1 := by
-  have h1 : Drops (init net a stream) (simStart net a (init net a stream)) := foldEvents_drops ..
-  have h2 := loop_drops net a fuel (simStart net a (init net a stream)) 0
-  unfold finalSim
+theorem finalSimFrom_Drops (net : Net) (a : Ambient) (fuel : Nat) (s0 : Sim) :
+    Drops s0 (finalSimFrom net a fuel s0).1 := by
+  have h1 : Drops s0 (simStart net a s0) := foldEvents_drops ..
+  have h2 := loop_drops net a fuel (simStart net a s0) 0
+  unfold finalSimFrom
   simp only []
-  generalize loop net a fuel (simStart net a (init net a stream)) 0 = r at h2
+  generalize loop net a fuel (simStart net a s0) 0 = r at h2
   cases r.1.fault with
   | some f => exact h1.trans h2
   | none =>
     have h3 : Drops r.1 (simEnd net a r.1) := foldEvents_drops ..
     exact (h1.trans h2).trans h3
+
+theorem finalSim_Drops (net : Net) (a : Ambient) (stream : List Nat) (fuel : Nat) :
+    Drops (init net a stream) (finalSim net a stream fuel).1 :=
+  finalSimFrom_Drops net a fuel _
 
 theorem finalSim_drops (net : Net) (a : Ambient) (stream : List Nat) (fuel : Nat) :
     ∃ k, (finalSim net a stream fuel).1.stream = stream.drop k :=
